@@ -690,7 +690,7 @@ def families(rep):
         attr_dims, attr_pair_dims = [(), (2,), (1, 2)], [()]
     else:
         fam = {
-            "depth2": [dict(pd=D4, sd=D4, maxm=2, empty=True), dict(pd=D2, sd=[], maxm=2, empty=True)],
+            "depth2": [dict(pd=D4, sd=[(), (2,), (2, 2)], maxm=2, empty=True), dict(pd=D2, sd=[], maxm=2, empty=True)],
             "depth3": [dict(pd=D2, sd=D2, maxm=2, max_sub=1), dict(pd=D2, sd=D2, maxm=2, max_sub=1),
                        dict(pd=[(), (1, 2)], sd=[], maxm=1, empty=True)],
         }
